@@ -32,8 +32,14 @@ pub fn opt_mat<T: Sc>(tag: &str, v: &Option<DMatrix<T>>) -> String {
     }
 }
 
-pub fn emit_tables<T: Sc>(out: &mut Out, recipe: &Recipe, alpha: &[T]) {
-    out.line(&format!(" phi ok {}", mat_str(&recipe.phi::<T>(alpha))));
+pub fn emit_tables<T: Sc>(out: &mut Out, recipe: &Recipe, alpha: &[T], w: &Option<Vec<T>>) {
+    let phi = recipe.phi::<T>(alpha);
+    // the SVD routine is an oracle of the model: where it breaks down on this step's FINITE matrix
+    // (singular values that are not finite) the driver is told
+    if svd_breaks(&phi, w) {
+        out.line(" svdq nonfinite");
+    }
+    out.line(&format!(" phi ok {}", mat_str(&phi)));
     for k in 0..recipe.p() {
         out.line(&format!(" d {} ok {}", k, mat_str(&recipe.dphi::<T>(alpha, k))));
     }
@@ -188,7 +194,7 @@ pub fn run_state_case<T: Sc>(out: Option<&mut Out>, c: &StateCase<T>, fault: Opt
         Ok(Ok(p)) => p,
     };
     out.line(&format!("step build {}", slice_str(&c.init)));
-    emit_tables(out, &c.recipe, &c.init);
+    emit_tables(out, &c.recipe, &c.init, &c.w);
     emit_svdq(out, &c.recipe, &c.init, &c.w);
     out.line(&format!(" impl yw {}", mat_str(&prob.yw())));
     out.line(&format!(" impl eps {}", hex(crate::pbuilder::parse_eps_from_debug::<T>(&prob.debug()))));
@@ -196,7 +202,7 @@ pub fn run_state_case<T: Sc>(out: Option<&mut Out>, c: &StateCase<T>, fault: Opt
     for (i, alpha) in c.history.iter().enumerate() {
         marks.push(probe.count());
         out.line(&format!("step set {}", slice_str(alpha)));
-        emit_tables(out, &c.recipe, alpha);
+        emit_tables(out, &c.recipe, alpha, &c.w);
         emit_svdq(out, &c.recipe, alpha, &c.w);
         let av = DVector::from_vec(alpha.clone());
         let r = guarded(|| prob.set(&av));
